@@ -15,6 +15,7 @@ import (
 	"net/url"
 	"strconv"
 	"strings"
+	"sync/atomic"
 	"time"
 
 	pkgcookies "github.com/oauth2-proxy/oauth2-proxy/v7/pkg/cookies"
@@ -771,8 +772,12 @@ func init() {
 					c.violation("HARNESS", "env: "+err.Error(), nil)
 					continue
 				}
-				for _, fk := range []string{"400-invalid-grant", "500", "reset", "non-json"} {
+				for _, fk := range []string{"400-invalid-grant", "500", "reset", "non-json", "500-once", "reset-once", "500-twice", "reset-twice"} {
 					b := newBrowser()
+					var tokenCalls atomic.Int64
+					e.idp.mu.Lock()
+					e.idp.pkceFailures = nil
+					e.idp.mu.Unlock()
 					sl := e.startOne(b, "D", "/after")
 					if sl == nil || sl.plain == nil {
 						continue
@@ -786,7 +791,12 @@ func init() {
 						if ep != "/token" {
 							return false
 						}
-						switch fk {
+						// ("-once" / "-twice": the endpoint fails the first call / the first two calls and answers the next — whatever is sent to it then is judged by the
+						// provider's own PKCE verification)
+						if n := tokenCalls.Add(1); (n > 1 && strings.HasSuffix(fk, "-once")) || (n > 2 && strings.HasSuffix(fk, "-twice")) {
+							return false
+						}
+						switch strings.TrimSuffix(strings.TrimSuffix(fk, "-once"), "-twice") {
 						case "400-invalid-grant":
 							w.Header().Set("Content-Type", "application/json")
 							w.WriteHeader(400)
@@ -810,6 +820,13 @@ func init() {
 					e.idp.mu.Unlock()
 					c.casen(fmt.Sprintf("c05|debug-page|%s|%v|%s", pk, redis, fk), fmt.Sprint(v.Status))
 					c.count("c05:refused-redemption-page")
+					e.idp.mu.Lock()
+					pf := append([]string(nil), e.idp.pkceFailures...)
+					e.idp.mu.Unlock()
+					if len(pf) > 0 {
+						c.violation("C05", "after the token endpoint failed one redemption, the login's code was presented to it AGAIN without the verifier of that login (the provider's own PKCE verification refused it)",
+							map[string]interface{}{"pkce": pk, "redis": redis, "token_endpoint": fk, "status": v.Status, "token_calls": tokenCalls.Load(), "provider_pkce_failures": pf, "session_created": hasSessionSet(v, e.opts.Cookie.Name)})
+					}
 					hay := v.Body + "\n" + fmt.Sprint(v.Header)
 					for what, secret := range map[string]string{"PKCE verifier": sl.plain.Verifier, "state nonce": string(sl.plain.State), "OIDC nonce": string(sl.plain.Nonce)} {
 						if len(secret) >= 16 && strings.Contains(hay, secret) {
@@ -817,7 +834,9 @@ func init() {
 								map[string]interface{}{"pkce": pk, "redis": redis, "token_endpoint": fk, "status": v.Status, "page_excerpt": truncate(v.Body[strings.Index(hay, secret)-min(60, strings.Index(hay, secret)):], 200)})
 						}
 					}
-					if hasSessionSet(v, e.opts.Cookie.Name) {
+					// (the OAuth2 client library sends the exchange a second time when the first attempt fails — its probing of how the
+					// endpoint wants the client credentials: with "-once" the redemption SUCCEEDS at the second attempt, verifier included)
+					if hasSessionSet(v, e.opts.Cookie.Name) && !strings.HasSuffix(fk, "-once") {
 						c.violation("C14", "session created although the code redemption failed", map[string]interface{}{"token_endpoint": fk})
 					}
 				}
